@@ -23,6 +23,11 @@ UN_SCALAR = ["x", "y", "rho", "phi", "z", "theta", "eta", "mag", "t", "tau", "be
 UN_VEC = [("rotateZ", [0.7]), ("rotateX", [-1.1]), ("scale", [-1.5]), ("unit", []), ("to_xyz", []), ("to_rhophieta", []),
           ("to_Vector4D", []), ("to_Vector2D", []), ("boostX", [0.4]), ("neg3D", []), ("to_beta3", [])]
 BIN = ["add", "subtract", "dot", "deltaR", "deltaphi", "cross", "boost_p4", "equal", "isclose"]
+# C16 observes EVERY public binary method / comparison / predicate (an operand must never change, whatever the method)
+BIN_ALL = BIN + ["not_equal", "is_parallel", "is_antiparallel", "is_perpendicular", "deltaangle", "deltaeta", "deltaR2", "deltaRapidityPhi",
+                 "deltaRapidityPhi2", "boost_beta3", "boost", "boostCM_of_p4", "boostCM_of", "like", "allclose"]
+UN_ALL = ["rho2", "costheta", "cottheta", "mag2", "t2", "tau2", "gamma", "Et", "Mt", "neg2D", "neg4D", "is_timelike", "is_lightlike", "is_spacelike",
+          "px", "pt", "mass", "energy"]
 
 
 # ------------------------------------------------------------------------------------------------ snapshots (C16)
@@ -47,7 +52,7 @@ def operands(r, dim, fl, sig, n=5, seed_tag=""):
 def c16_run(ctx):
     r = C.rng(ctx.seed, "c16")
     problems, n_calls, samples = [], 0, []
-    sigs = C.ALLSIGS if ctx.tier == "thorough" else r.sample(C.ALLSIGS, 8)
+    sigs = C.ALLSIGS if ctx.tier == "thorough" else C.SIG2 + r.sample(C.SIG3, 3) + r.sample(C.SIG4, 4)
     for sig in sigs:
         dim = len(sig) + 1
         fl = r.choice("gm")
@@ -65,7 +70,9 @@ def c16_run(ctx):
                   "ak": lambda: C.ak_array("m", sig2, rows2)}
         for tag, mk in makers.items():
             v = mk()
-            calls = [(m, ()) for m in UN_SCALAR] + [(m, tuple(a)) for m, a in UN_VEC]
+            calls = [(m, ()) for m in UN_SCALAR + UN_ALL] + [(m, tuple(a)) for m, a in UN_VEC] + \
+                [("rotate_euler", (0.1, 0.2, 0.3, "zyx")), ("rotate_quaternion", (0.5, 0.5, 0.5, 0.5)), ("rotateY", (0.3,)),
+                 ("to_rhophithetatau", ()), ("to_xyzt", ()), ("scale2D", (2.0,)), ("boostZ", (0.2,))]
             for m, a in calls:
                 if not hasattr(v, m):
                     continue
@@ -82,7 +89,7 @@ def c16_run(ctx):
                 if tag in ("ak-jagged",) and otag != "obj":
                     continue
                 w = mko()
-                for m in BIN + ["__add__", "__sub__", "__eq__", "__matmul__"]:
+                for m in BIN_ALL + ["__add__", "__sub__", "__eq__", "__ne__", "__matmul__"]:
                     if not hasattr(v, m):
                         continue
                     b1, b2 = snapshot(v), snapshot(w)
@@ -254,7 +261,7 @@ def structure(a):
 def c18_run(ctx):
     r = C.rng(ctx.seed, "c18")
     problems, n, samples = [], 0, []
-    sigs = C.ALLSIGS if ctx.tier == "thorough" else r.sample(C.ALLSIGS, 8)
+    sigs = C.ALLSIGS if ctx.tier == "thorough" else C.SIG3 + r.sample(C.SIG2 + C.SIG4, 5)
     for sig in sigs:
         dim = len(sig) + 1
         fl = r.choice("gm")
@@ -299,6 +306,9 @@ def c18_run(ctx):
                     n_lon = sum(f in ("z", "theta", "eta") for f in cf)
                     n_tmp = sum(f in ("t", "tau") for f in cf)
                     n_az = (("x" in cf) + ("y" in cf), ("rho" in cf) + ("phi" in cf))
+                    cdim = 2 if isinstance(res, vector.Vector2D) else 3 if isinstance(res, vector.Vector3D) else 4 if isinstance(res, vector.Vector4D) else 0
+                    if cdim != 2 + n_lon + n_tmp:
+                        problems.append((f"class-dimension:{m}", f"{m} on {lname} ({fl}:{sig}) returns a {cdim}D vector class ({str(ak.type(res))[-60:]}) with coordinate fields {cf}"))
                     if n_az not in ((2, 0), (0, 2)) or n_lon > 1 or n_tmp > 1 or (n_tmp == 1 and n_lon == 0) or len(cf) != 2 + n_lon + n_tmp:
                         problems.append((f"coord-fields:{m}", f"{m} on {lname} ({fl}:{sig}) returns coordinate fields {ak.fields(res)}: not one coordinate system"))
             # binary with the same layout of another array: coordinates only
@@ -335,6 +345,7 @@ def c18_run(ctx):
             samples.append({"sig": sig, "flavor": fl, "layouts": list(layouts), "type_of_nested3": str(ak.type(layouts["nested3"]))})
     raw, nraw = raw_momentum_records(ctx)
     problems += raw
+    problems += c18_transcription()
     return problems, {"awkward_calls": n, "raw_momentum_record_calls": nraw}, samples
 
 
@@ -578,4 +589,89 @@ def c20_run(ctx):
             problems.append(("threads", f"thread {i}: call {cat[j][0]} gives {str(res[j])[:80]} but sequentially {str(seq[j])[:80]}"))
             break
     samples = [{"call": cat[i][0], "result": str(seq[i])[:120]} for i in (0, len(cat) // 2, len(cat) - 1)]
-    return problems, {"calls_with_global_snapshot": n, "catalogue": len(cat), "threads": nthreads}, samples
+    sp, nd = c20_bracket_structure()
+    problems += sp
+    return problems, {"calls_with_global_snapshot": n, "catalogue": len(cat), "threads": nthreads, "dispatch_brackets_checked": nd}, samples
+
+
+# ------------------------------------------------------------------------------------------------ structural ties (source <-> model)
+def awkward_exclusion_tuples():
+    """the literal tuples of field names excluded from pass-through in the five vector-returning branches of
+    VectorAwkward._wrap_result (source order), extracted from the CURRENT source by AST"""
+    import ast
+    import inspect
+    import vector.backends.awkward as VA
+    src = inspect.getsource(VA.VectorAwkward._wrap_result)
+    import textwrap
+    tree = ast.parse(textwrap.dedent(src))
+    out = []
+    for node in ast.walk(tree):
+        if isinstance(node, ast.Compare) and len(node.ops) == 1 and isinstance(node.ops[0], ast.NotIn) and isinstance(node.comparators[0], ast.Tuple):
+            elts = node.comparators[0].elts
+            if elts and all(isinstance(e, ast.Constant) and isinstance(e.value, str) for e in elts):
+                out.append((node.lineno, [e.value for e in elts]))
+    return [t for _, t in sorted(out)]
+
+
+def lean_exclusion_lists():
+    import re
+    text = open(C.VERIF + "/lean/VectorModel/Glue/Awkward.lean").read()
+    out = {}
+    for name in ("exclAz", "exclAzLon", "exclAll"):
+        m = re.search(r"def %s : List String :=\s*\[(.*?)\]" % name, text, flags=re.S)
+        out[name] = re.findall(r'"([^"]+)"', m.group(1)) if m else None
+    return out
+
+
+def c18_transcription():
+    """the Lean model's literal exclusion lists are the source's literal tuples (branch order: az, azNone, azLon, azLonNone, azLonTmp)"""
+    src = awkward_exclusion_tuples()
+    lean = lean_exclusion_lists()
+    want = [lean["exclAz"], lean["exclAll"], lean["exclAzLon"], lean["exclAll"], lean["exclAll"]]
+    problems = []
+    if len(src) != 5:
+        problems.append(("awkward-wrap-structure", f"_wrap_result has {len(src)} exclusion tuples, the model transcribes 5 branches"))
+    else:
+        for i, (a, b) in enumerate(zip(src, want)):
+            if a != b:
+                problems.append((f"awkward-exclusion-tuple:{i}", f"branch {i} of VectorAwkward._wrap_result excludes {a}; the Lean model (Glue/Awkward.lean) has {b}"))
+    return problems
+
+
+def c20_bracket_structure():
+    """every `dispatch()` of the compute layer wraps its work in `with numpy.errstate(all="ignore")`, and nothing in src/vector touches
+    process-wide state outside register_awkward / register_numba (AST scan of the CURRENT source)"""
+    import ast
+    import glob
+    import os
+    import vector
+    root = os.path.dirname(vector.__file__)
+    problems, n = [], 0
+    for f in sorted(glob.glob(os.path.join(root, "_compute", "*", "*.py"))):
+        if f.endswith("__init__.py"):
+            continue
+        tree = ast.parse(open(f).read())
+        fns = [x for x in tree.body if isinstance(x, ast.FunctionDef) and x.name == "dispatch"]
+        if len(fns) != 1:
+            problems.append(("dispatch-structure", f"{os.path.relpath(f, root)}: {len(fns)} dispatch functions"))
+            continue
+        n += 1
+        body = [s for s in fns[0].body if not (isinstance(s, ast.Expr) and isinstance(s.value, ast.Constant))]
+        withs = [s for s in body if isinstance(s, ast.With)]
+        ok = len(withs) == 1 and ast.unparse(withs[0].items[0].context_expr) == "numpy.errstate(all='ignore')" and \
+            all(isinstance(s, (ast.With, ast.Assign)) for s in body)
+        # the compute call (`_wrap_dispatched_function(function)(...)`) must be inside the bracket
+        inside = any(isinstance(c, ast.Attribute) and c.attr == "_wrap_dispatched_function" for w in withs for c in ast.walk(w))
+        outside = any(isinstance(c, ast.Attribute) and c.attr == "_wrap_dispatched_function" for s in body if not isinstance(s, ast.With) for c in ast.walk(s))
+        if not ok or not inside or outside:
+            problems.append((f"errstate-bracket:{os.path.basename(os.path.dirname(f))}.{os.path.basename(f)[:-3]}",
+                             f"{os.path.relpath(f, root)}: dispatch() does not wrap its compute call in `with numpy.errstate(all='ignore')`"))
+    bad_calls = ("seterr", "seterrcall", "set_printoptions", "simplefilter", "filterwarnings", "resetwarnings", "setbufsize")
+    for f in sorted(glob.glob(os.path.join(root, "**", "*.py"), recursive=True)):
+        tree = ast.parse(open(f).read())
+        for node in ast.walk(tree):
+            if isinstance(node, ast.Call):
+                name = node.func.attr if isinstance(node.func, ast.Attribute) else getattr(node.func, "id", "")
+                if name in bad_calls:
+                    problems.append((f"global-call:{name}", f"{os.path.relpath(f, root)}:{node.lineno}: call of {name}"))
+    return problems, n
